@@ -51,7 +51,7 @@ def cc_conf(vm, dl, dr, r, c) -> "float":
             else lr_dist(dl, dr, r, c))
 
 
-@contract("pandora.validation.validation.CrossCheckingAccurate.disparity_checking", props=["C07"])
+@contract("pandora.validation.validation.CrossCheckingAccurate.disparity_checking", props=["C07", "C04", "C08"])
 def _(self, dataset_left, dataset_right, img_left, img_right, cv):
     types(self={"@attrs": {"_threshold": "float"}},
           dataset_left={"vars": {"disparity_map": "f32[:,:]", "validity_mask": "u16[:,:]", "disparity_interval": "f32[2]"},
